@@ -268,8 +268,8 @@ def isolation(ctx, n):
 
 def run(ctx):
     import logging
-    logging.getLogger("deep").setLevel(logging.CRITICAL + 1)
-    logging.getLogger().setLevel(logging.CRITICAL + 1)
+    from ..lib.quiet import quiet_logging
+    quiet_logging()
     ctx.rule = ("loader: 0-6 candidates each one of {usable, module missing, class missing, constructor raises, DidNotEnable, "
                 "switched off by PLUGIN_<NAME> (text or bool), is_active false} with order in {None,-1,0,1,2,5}, through the real "
                 "load_plugins; isolation: 1-3 span plugins (create / close failing), 1-3 metric processors, 1-3 snapshot "
